@@ -456,13 +456,29 @@ func (c *Ctx) annotationKeys() {
 			}
 			return true
 		})
-		if ann == nil {
-			c.Bad("C19.3-annotation-keys", fname, fi.Decl.Pos(), "annotations are not obtained through GetAnnotations()")
-			continue
-		}
 		isKey := func(e ast.Expr) bool {
 			tv, ok := info.Types[e]
 			return ok && tv.Value != nil && tv.Value.ExactString() == kc.Val().ExactString()
+		}
+		if ann == nil {
+			// the getters may index the map where they obtain it: X.GetAnnotations()[key]
+			direct := 0
+			ast.Inspect(fi.Decl.Body, func(x ast.Node) bool {
+				if ix, ok := x.(*ast.IndexExpr); ok {
+					if call, ok := ast.Unparen(ix.X).(*ast.CallExpr); ok {
+						if sel, ok := call.Fun.(*ast.SelectorExpr); ok && sel.Sel.Name == "GetAnnotations" {
+							direct++
+							n++
+							c.Check(isKey(ix.Index), "C19.3-annotation-keys", fmt.Sprintf("%s: GetAnnotations()[%s]", fname, types.ExprString(ix.Index)), ix.Pos(), "uses the helper's own key constant "+kname, "the helper touches an annotation other than its own key")
+						}
+					}
+				}
+				return true
+			})
+			if direct == 0 || strings.HasPrefix(fname, "Set") {
+				c.Bad("C19.3-annotation-keys", fname, fi.Decl.Pos(), "annotations are not obtained through GetAnnotations()")
+			}
+			continue
 		}
 		ast.Inspect(fi.Decl.Body, func(x ast.Node) bool {
 			switch y := x.(type) {
@@ -496,7 +512,7 @@ func (c *Ctx) annotationKeys() {
 			return true
 		})
 	}
-	c.Floor("C19.3-annotation-accesses", n, 8)
+	c.Floor("C19.3-annotation-accesses", n, 6)
 	// the setters always write: every successful exit has passed the key's delete or store and SetAnnotations
 	for _, fname := range []string{"SetDeleteSlots", "SetPausedReconcile"} {
 		fi := c.Func(load.HelperPkg, fname)
